@@ -1,5 +1,6 @@
 import XrsVerif.Proofs.HaloNV
 import XrsVerif.Core.HaloIter
+import XrsVerif.Core.Dataflow
 import XrsVerif.Model.Index
 import XrsVerif.Gen.Overlap
 import XrsVerif.Gen.Blocks
@@ -252,7 +253,25 @@ theorem sum_blocks (blocks : List (List K)) :
     (blocks.map (fun b => b.foldl (· + ·) 0)).foldl (· + ·) 0 = blocks.flatten.foldl (· + ·) 0 :=
   reduce_blocks_eq_global (· + ·) add_assoc 0 zero_add add_zero blocks
 
-/-! ## 6. non-vacuity -/
+/-! ## 6. every scheduler and worker count
+
+  A Dask computation is a graph of pure tasks (block functions on halo blocks, reductions,
+  reassembly).  `DF.run g sched` executes an arbitrary *schedule*: any sequence of batches, a batch
+  being the tasks that the workers start in the same tick (1 worker = singleton batches; threads x N
+  = batches of up to N; any order that respects readiness).  Whatever the schedule, a task that gets
+  computed gets its denotation -- so two runs under different schedulers / worker counts agree on
+  every block they both produce, and two complete runs produce the same raster. -/
+
+theorem any_schedule_same_result {V : Type} (g : DF.Graph V) (s1 s2 : List (List Nat)) (i : Nat) (v w : V)
+    (h1 : DF.run g s1 (fun _ => none) i = some v) (h2 : DF.run g s2 (fun _ => none) i = some w) : v = w :=
+  DF.schedule_independent g s1 s2 i v w h1 h2
+
+/-- and that value is the task's denotation, which does not mention the schedule at all -/
+theorem scheduled_value_is_denotation {V : Type} (g : DF.Graph V) (s : List (List Nat)) (i : Nat) (v : V)
+    (h : DF.run g s (fun _ => none) i = some v) : v = DF.den g i :=
+  DF.run_sound g s _ (by intro i v h; simp at h) i v h
+
+/-! ## 7. non-vacuity -/
 instance : Trig ℚ := ⟨id, id, fun a _ => a, id, id, id, id⟩
 
 /-- a 3x3 raster split into 1-cell chunks satisfies the hypotheses of `slope_dask_eq_numpy` -/
